@@ -140,7 +140,7 @@ def register(lib):
         if 'w' in mode:
             f.fields['kind'] = ('out', len(opened))
         elif mode in ('rb', 'r'):
-            f.fields['kind'] = BM.K_FILE2
+            f.fields['kind'] = 5 if name == '<segy>' else BM.K_FILE2      # 5 = the source SEG-Y of the producer contracts
         opened.append((name, mode, f))
         return f
     E['open'] = b_open
